@@ -131,7 +131,7 @@ theorem coreP_year (A : Astro) (lo hi : Int) (h : AstroOK A lo hi) (y : Int) (hl
   have := h.year y hlo hhi
   unfold yearOk at this
   simp only [Bool.and_eq_true] at this
-  exact coreP_of _ _ this.1.1
+  exact coreP_of _ _ this.1.1.1
 
 theorem chainF_iff (a b : MonthRec) : chainF a b = true ↔ (b.first = a.first + a.dayCount ∧ a.year ≤ b.year) := by
   unfold chainF
